@@ -1126,8 +1126,8 @@ func TestC17(t *testing.T) {
 
 func init() {
 	Describe("C17",
-		"cases: (Ion value, target Go type, format, entry point): the exhaustive matrix of ~125 exemplar values (29 integer boundaries up to 2^128, every typed null, float32 / float64 boundaries incl. just above MaxFloat32, NaN, infinities, decimals, timestamps of several precisions, symbols with / without text, strings, lobs of several lengths, lists / sexps / structs of scalars incl. mixed, nested and out-of-range elements) x 75 target types (bool, every integer width, uintptr, float32/64, string, []byte, [4]byte, Timestamp, time.Time, Decimal, big.Int, SymbolToken, interface{}, a non-empty interface, and pointer / pointer-to-pointer / slice / array / map / struct / annotation-wrapper shapes over 7 element types) x {text via UnmarshalString, binary via Unmarshal, binary via Decoder.DecodeTo}; plus random values (entry points also UnmarshalFrom, NewTextDecoder over a one-byte-per-Read source, System.Unmarshal / UnmarshalString) and random integers against the same targets; plus 12 arguments that cannot be filled (nil, non-pointer, nil pointer, pointers to chan / func / complex / map with int keys / struct with unexported fields) x every exemplar: an error or at least no panic; plus Decoder streams of 0-6 values. Non-trivial: off-diagonal cell, boundary number or typed null. Distinct by digest(value, target, format, entry).",
-		"oracle: reference conversion table with three verdicts per cell: must-store (the stored Go value, described by the harness's own reflection walk, equals the expected value), must-error (integer outside the target's width or sign, finite float beyond float32, symbol without text into string, any type mismatch: an error and never a stored result), either (a typed null leaving the zero value, surplus list elements or lob bytes dropped for a fixed-size array, float into Decimal, case-insensitive field-name fallback, an annotated struct into a wrapper); never a panic. Decoder: n successful Decode / DecodeTo calls in order, then ErrNoInput on each further call",
+		"cases: (Ion value, target Go type, format, entry point): the exhaustive matrix of ~125 exemplar values (29 integer boundaries up to 2^128, every typed null, float32 / float64 boundaries incl. just above MaxFloat32, NaN, infinities, decimals, timestamps of several precisions, symbols with / without text, strings, lobs of several lengths, lists / sexps / structs of scalars incl. mixed, nested and out-of-range elements) x 75 target types (bool, every integer width, uintptr, float32/64, string, []byte, [4]byte, Timestamp, time.Time, Decimal, big.Int, SymbolToken, interface{}, a non-empty interface, and pointer / pointer-to-pointer / slice / array / map / struct / annotation-wrapper shapes over 7 element types) x {text via UnmarshalString, binary via Unmarshal, binary via Decoder.DecodeTo}; plus random values (entry points also UnmarshalFrom, NewTextDecoder over a one-byte-per-Read source, System.Unmarshal / UnmarshalString) and random integers against the same targets; plus 12 arguments that cannot be filled (nil, non-pointer, nil pointer, pointers to chan / func / complex / map with int keys / struct with unexported fields) x every exemplar: an error or at least no panic; plus Decoder streams of 0-6 values (30% with their top-level structs annotated meta::$ion_symbol_table::, which stay user values); plus documents importing a shared table with max_id below / at / above its size followed by a list of 1-4 symbol IDs inside the import, decoded with the table handed to Unmarshal or through a Decoder over NewReaderCat into interface{}, []interface{}, []string, []SymbolToken. Non-trivial: off-diagonal cell, boundary number or typed null. Distinct by digest(value, target, format, entry).",
+		"oracle: reference conversion table with three verdicts per cell: must-store (the stored Go value, described by the harness's own reflection walk, equals the expected value), must-error (integer outside the target's width or sign, finite float beyond float32, symbol without text into string, any type mismatch: an error and never a stored result), either (a typed null leaving the zero value, surplus list elements or lob bytes dropped for a fixed-size array, float into Decimal, case-insensitive field-name fallback, an annotated struct into a wrapper); never a panic. Decoder: n successful Decode / DecodeTo calls in order, then ErrNoInput on each further call; imported-table documents: never a panic, and the list of texts when every ID is defined",
 		"stored values are compared under C16's semantic equality (nil vs empty collections, time.Time by instant); struct values for map / interface{} targets have unique field names with known text",
 	)
 }
